@@ -3,8 +3,14 @@
 package pp
 
 import (
+	"strings"
+
 	"github.com/ohler55/slip"
 )
+
+// docEscaper makes the text of a documentation string readable again as a
+// string.
+var docEscaper = strings.NewReplacer(`\`, `\\`, `"`, `\"`)
 
 // Doc holds a documentation string.
 type Doc struct {
@@ -16,7 +22,7 @@ type Doc struct {
 
 func (doc *Doc) layout(left int) int {
 	doc.x = left
-	doc.wide = len([]rune(doc.text)) + 2
+	doc.wide = len([]rune(docEscaper.Replace(doc.text))) + 2
 
 	return doc.wide
 }
@@ -30,7 +36,7 @@ func (doc *Doc) reorg(edge int) int {
 
 func (doc *Doc) adjoin(b []byte) []byte {
 	b = append(b, '"')
-	b = slip.AppendDoc(b, doc.text, doc.x+1, doc.x+doc.wide, false, 0)
+	b = slip.AppendDoc(b, docEscaper.Replace(doc.text), doc.x+1, doc.x+doc.wide, false, 0)
 
 	return append(b, '"')
 }
